@@ -128,6 +128,62 @@ def ints(x):
     return json.loads(json.dumps(numpy.asarray(x).tolist()))
 
 
+def compare_accessors(s: Soft, m, g: str, pre: str) -> int:
+    """every descriptive accessor and index conversion of IndelMap ``m`` against the gapped string ``g``;
+    returns the number of comparisons.  ``pre`` is a circumstance tag put in front of the clause names."""
+    L = len(g)
+    n = sum(1 for c in g if c != "-")
+    gruns = runs(g, True)
+    evals = 0
+    ok, got = s.call(pre + "gaps/get_gap_coordinates", lambda: [list(x) for x in ints(m.get_gap_coordinates())])
+    if ok:
+        s.eq(got, gap_coords(g), pre + "gaps/get_gap_coordinates", g)
+    ok, got = s.call(pre + "gaps/get_gap_align_coordinates", lambda: [list(x) for x in ints(m.get_gap_align_coordinates())])
+    if ok:
+        s.eq(got, [list(x) for x in gruns], pre + "gaps/get_gap_align_coordinates", g)
+    ok, got = s.call(pre + "gaps/get_gap_lengths", lambda: [int(x) for x in m.get_gap_lengths()])
+    if ok:
+        s.eq(got, [e - b for b, e in gruns], pre + "gaps/get_gap_lengths", g)
+    ok, ng = s.call(pre + "segments/nongap", lambda: [(int(sp.start), int(sp.end)) for sp in m.nongap()])
+    if ok:
+        s.eq(ng, runs(g, False), pre + "segments/nongap", g)
+    ok, co = s.call(pre + "segments/get_coordinates", lambda: [(int(a), int(b)) for a, b in m.get_coordinates()])
+    if ok:
+        want = seq_segments(g)
+        if n == 0:
+            s.check(co in ([], [(0, 0)]), pre + "segments/get_coordinates", f"{g!r}: got {co}")
+        else:
+            s.eq(co, want, pre + "segments/get_coordinates", g)
+    evals += 5
+
+    # --- index conversions
+    for col in range(L + 1):
+        for spell in ([col, col - L] if col < L else [col]):
+            if spell < 0 and col == L:
+                continue
+            ok, got = s.call(pre + "index/get_seq_index", m.get_seq_index, spell)
+            evals += 1
+            if ok:
+                s.eq(got, n_left(g, col), pre + "index/get_seq_index", f"{g!r} col {spell}")
+    cols = [i for i, c in enumerate(g) if c != "-"]
+    for i in range(n):
+        for spell in (i, i - n):
+            ok, got = s.call(pre + "index/get_align_index", m.get_align_index, spell)
+            evals += 1
+            if ok:
+                s.eq(got, cols[i], pre + "index/get_align_index", f"{g!r} seq index {spell}")
+        # slice_stop: the end of an alignment slice that keeps residues < i
+        # and none of the gap run that precedes residue i
+        ok, got = s.call(pre + "index/get_align_index_stop", m.get_align_index, i, slice_stop=True)
+        evals += 1
+        if ok:
+            want = cols[i]
+            while want > 0 and g[want - 1] == "-":
+                want -= 1
+            s.eq(got, want, pre + "index/get_align_index_stop", f"{g!r} seq index {i}")
+    return evals
+
+
 # ------------------------------------------------------------ sub: layout
 def spellings(i: int, L: int, is_stop: bool, full: bool):
     """ways of writing index i in a slice on length L"""
@@ -191,47 +247,19 @@ def exec_layout(case) -> Soft:
         s.eq(len(mm), L, f"construct/{route}/len", f"layout {g!r}")
         s.eq(int(mm.parent_length), n, f"construct/{route}/parent_length", f"layout {g!r}")
 
-    # --- descriptive accessors
-    s.eq(ints(m.get_gap_coordinates()) if gruns else list(ints(m.get_gap_coordinates())), gap_coords(g), "gaps/get_gap_coordinates", g)
-    s.eq([list(x) for x in ints(m.get_gap_align_coordinates())], [list(x) for x in gruns], "gaps/get_gap_align_coordinates", g)
-    s.eq([int(x) for x in m.get_gap_lengths()], [e - b for b, e in gruns], "gaps/get_gap_lengths", g)
-    ok, ng = s.call("segments/nongap", lambda: [(int(sp.start), int(sp.end)) for sp in m.nongap()])
-    if ok:
-        s.eq(ng, runs(g, False), "segments/nongap", g)
-    ok, co = s.call("segments/get_coordinates", lambda: [(int(a), int(b)) for a, b in m.get_coordinates()])
-    if ok:
-        want = seq_segments(g)
-        if n == 0:
-            s.check(co in ([], [(0, 0)]), "segments/get_coordinates", f"{g!r}: got {co}")
-        else:
-            s.eq(co, want, "segments/get_coordinates", g)
-    evals += 5
-
-    # --- index conversions
-    for col in range(L + 1):
-        for spell in ([col, col - L] if col < L else [col]):
-            if spell < 0 and col == L:
-                continue
-            ok, got = s.call("index/get_seq_index", m.get_seq_index, spell)
+    # --- descriptive accessors and index conversions, on every construction route
+    evals += compare_accessors(s, m, g, "")
+    for route, mm in maps.items():
+        if route != "direct":
+            evals += compare_accessors(s, mm, g, f"route:{route}/")
+            # and it re-enters a binary operation: merged with the directly built map every gap run doubles
+            ok, r = s.call(f"route:{route}/merge_maps", mm.merge_maps, m)
             evals += 1
             if ok:
-                s.eq(got, n_left(g, col), "index/get_seq_index", f"{g!r} col {spell}")
-    cols = [i for i, c in enumerate(g) if c != "-"]
-    for i in range(n):
-        for spell in (i, i - n):
-            ok, got = s.call("index/get_align_index", m.get_align_index, spell)
-            evals += 1
-            if ok:
-                s.eq(got, cols[i], "index/get_align_index", f"{g!r} seq index {spell}")
-        # slice_stop: the end of an alignment slice that keeps residues < i
-        # and none of the gap run that precedes residue i
-        ok, got = s.call("index/get_align_index_stop", m.get_align_index, i, slice_stop=True)
-        evals += 1
-        if ok:
-            want = cols[i]
-            while want > 0 and g[want - 1] == "-":
-                want -= 1
-            s.eq(got, want, "index/get_align_index_stop", f"{g!r} seq index {i}")
+                want = "".join(c * 2 if c == "-" else c for c in g)
+                ok, txt = s.call(f"route:{route}/merge_maps/render", render, r, residues)
+                if ok:
+                    s.eq(txt, want, f"route:{route}/merge_maps/render", f"layout {g!r}")
 
     # --- slicing by every in-range interval
     full = L <= 6
@@ -296,6 +324,12 @@ def exec_layout(case) -> Soft:
         if ok:
             s.eq(txt, g, "to_feature_map/render", g)
         s.eq(len(fm), L, "to_feature_map/len", g)
+        # the feature map of an alignment row is what features placed on alignments serialise
+        ok, rt = s.call("to_feature_map/json", lambda: type(fm).from_rich_dict(json.loads(fm.to_json())))
+        if ok:
+            ok, txt = s.call("to_feature_map/json/render", render, rt, residues)
+            if ok:
+                s.eq(txt, g, "to_feature_map/json/render", g)
     s.evals = evals
     s.nontrivial = bool(s.extra_nontrivial)
     return s
@@ -471,88 +505,327 @@ def exec_binary(case) -> Soft:
 
 
 # -------------------------------------------------------- sub: featuremap
+# A feature map is modelled by the list of parent indices it denotes, one per
+# map position (None where the position is lost).  A forward span [a, b)
+# denotes a, a+1, .. b-1; a reversed span denotes b-1, b-2, .. a.
+SPAN_KINDS = ("s", "r", "l")  # forward span, reversed span, lost span
+
+
+def spec_positions(specs):
+    idx = []
+    for x in specs:
+        if x[0] == "s":
+            idx.extend(range(x[1], x[2]))
+        elif x[0] == "r":
+            idx.extend(range(x[2] - 1, x[1] - 1, -1))
+        else:
+            idx.extend([None] * x[1])
+    return idx
+
+
+def build_spans(specs):
+    from cogent3.core.location import LostSpan, Span
+
+    spans = []
+    for x in specs:
+        if x[0] == "s":
+            spans.append(Span(x[1], x[2]))
+        elif x[0] == "r":
+            spans.append(Span(x[1], x[2], reverse=True))
+        else:
+            spans.append(LostSpan(x[1]))
+    return spans
+
+
+def reduce_specs(raw, n: int):
+    """raw [kind, u, v] triples -> non-empty spans inside [0, n] (lost spans of length 1..3); the reduction makes
+    every generated triple valid whatever the length n of the indexed map turned out to be"""
+    out = []
+    for kind, u, v in raw:
+        if kind == "l":
+            out.append(["l", 1 + u % 3])
+        elif n > 0:
+            lo = u % n
+            out.append([kind, lo, lo + 1 + v % (n - lo)])
+    return out
+
+
+def fm_positions(fm):
+    out = []
+    for sp in fm.spans:
+        if sp.lost:
+            out.extend([None] * len(sp))
+        elif sp.reverse:
+            out.extend(range(int(sp.end) - 1, int(sp.start) - 1, -1))
+        else:
+            out.extend(range(int(sp.start), int(sp.end)))
+    return out
+
+
+def fm_blocks(fm):
+    """[(length, lost)] per span: how the map positions are partitioned into spans"""
+    return [(len(sp), bool(sp.lost)) for sp in fm.spans]
+
+
+def run_set(ixs):
+    ixs = sorted(set(ixs))
+    out = []
+    for i in ixs:
+        if out and out[-1][1] == i:
+            out[-1][1] = i + 1
+        else:
+            out.append([i, i + 1])
+    return [tuple(x) for x in out]
+
+
+def fm_in_parent(s: Soft, fm, plen: int, sig: str):
+    for sp in fm.spans:
+        if not sp.lost:
+            s.check(0 <= sp.start <= sp.end <= plen, sig, f"span {sp!r} outside parent of length {plen}")
+
+
+def fm_reflect(idx, blocks, P: int):
+    """positions of the nucleic_reversed map: spans in reverse order, each reflected onto the other strand and
+    (documented: 'discards reverse attribute') listed ascending"""
+    want, pos, parts = [], 0, []
+    for ln, lost in blocks:
+        parts.append((idx[pos : pos + ln], lost))
+        pos += ln
+    for blk, lost in reversed(parts):
+        want.extend(blk if lost else sorted(P - 1 - i for i in blk))
+    return want
+
+
+GETITEM_OPS = ("slice", "int", "inner", "multi", "spans", "keep")
+SKIP = "not applicable"
+
+
+def fmap_step(s: Soft, fm, idx, P: int, op, sigp: str, after_zeroed: bool = False, from_indel: bool = False):
+    """apply one operation to feature map ``fm`` (verified to denote ``idx`` on a parent of length ``P``) and compare
+    the result with the same operation on the index list.  Returns (fm', idx', P') to continue a history, SKIP when
+    the operation does not apply to this state, or None when the result cannot be continued.  ``after_zeroed``: an earlier
+    step of the history was ``zeroed`` (circumstance tag for the two operations that serialise the spans);
+    ``from_indel``: the history started from IndelMap.to_feature_map (same clause name as in the layout sub-check for
+    the JSON round trip of such a map)."""
+    from cogent3.core.location import FeatureMap, Span
+
+    name = op[0]
+    n = len(idx)
+    real = [i for i in idx if i is not None]
+    blocks = fm_blocks(fm)
+    empty_spans = any(ln == 0 and not lost for ln, lost in blocks)
+    what = f"{fm!r} {op}"
+    want_P = P
+    if name in GETITEM_OPS and not blocks:
+        # composition with a map that has no spans at all: kept under its own
+        # signature (Span.remap_with reads map.offsets[-1])
+        sig = sigp + "getitem/no-spans"
+        ok, r = s.call(sig, lambda: fm[0:0])
+        if not (ok and s.eq(fm_positions(r), [], sig, what)):
+            return None
+    if name == "slice":
+        a, b = op[1], op[2]
+        call = lambda: fm[a:b]
+        want = idx[a:b]
+    elif name == "int":
+        if not n:
+            return SKIP
+        i = op[1] % (2 * n) - n  # -n .. n-1
+        call = lambda: fm[i]
+        want = [idx[i]]
+        what = f"{fm!r} [{i}]"
+    elif name == "inner":
+        specs = reduce_specs(op[1], n)
+        if not specs:
+            return SKIP
+        inner_idx = spec_positions(specs)
+        call = lambda: fm[FeatureMap(spans=build_spans(specs), parent_length=n)]
+        want = [None if j is None else idx[j] for j in inner_idx]
+        what = f"{fm!r} [inner {specs}]"
+        s.cls("inner:" + "".join(sorted({x[0] for x in specs})))
+    elif name == "multi":
+        sls = [slice(a, b) for a, b in op[1]]
+        call = lambda: fm[sls]
+        want = [v for a, b in op[1] for v in idx[a:b]]
+    elif name == "spans":
+        # a tuple of forward spans in map coordinates, as Feature.without_lost_spans passes
+        if not n:
+            return SKIP
+        locs = []
+        for u, v in op[1]:
+            lo = u % n
+            locs.append((lo, lo + 1 + v % (n - lo)))
+        call = lambda: fm[tuple(Span(a, b) for a, b in locs)]
+        want = [v for a, b in locs for v in idx[a:b]]
+        what = f"{fm!r} [spans {locs}]"
+    elif name == "keep":
+        call = lambda: fm[fm.nongap()]
+        want = real
+    elif name == "add":
+        specs = reduce_specs(op[1], P)
+        if not specs:
+            return SKIP
+        call = lambda: fm + FeatureMap(spans=build_spans(specs), parent_length=P)
+        want = idx + spec_positions(specs)
+        what = f"{fm!r} + {specs}"
+    elif name == "nucleic_reversed":
+        call = fm.nucleic_reversed
+        want = fm_reflect(idx, blocks, P)
+    elif name == "inverse":
+        # documented: cannot work if there are overlaps
+        if len(set(real)) != len(real) or empty_spans:
+            return SKIP
+        call = fm.inverse
+        want = [None] * P
+        for mi, pi in enumerate(idx):
+            if pi is not None:
+                want[pi] = mi
+        want_P = n
+    elif name == "shadow":
+        if len(set(real)) != len(real) or empty_spans:
+            return SKIP
+        call = fm.shadow
+        covered = set(real)
+        want = [i for i in range(P) if i not in covered]
+    elif name == "covered":
+        call = fm.covered
+        want = sorted(set(real))
+    elif name == "covering":
+        if not real or empty_spans:
+            return SKIP
+        call = fm.get_covering_span
+        want = list(range(min(real), max(real) + 1))
+    elif name == "without_gaps":
+        call = fm.without_gaps
+        want = real
+    elif name == "gaps":
+        call = fm.gaps
+        want = [i for i, v in enumerate(idx) if v is None]
+        want_P = n
+    elif name == "json":
+        call = lambda: FeatureMap.from_rich_dict(json.loads(fm.to_json()))
+        want = idx
+    elif name == "zeroed":
+        if not real or empty_spans:
+            return SKIP
+        lo = min(real)
+        call = fm.zeroed
+        want = [None if i is None else i - lo for i in idx]
+        want_P = max(real) + 1 - lo
+    else:
+        raise ValueError(f"unknown feature map operation {op!r}")
+    sig = sigp + name
+    if after_zeroed and name in ("json", "zeroed"):
+        # zeroed() shifts the spans of its result in place and leaves their serialisable
+        # state behind: one root cause, kept apart from the plain round trip
+        sig = sigp + "after-zeroed/serialise"
+    elif from_indel and name == "json":
+        sig = sigp + "to_feature_map/json"
+    ok, r = s.call(sig, call)
+    if not ok:
+        return None
+    ok, got = s.call(sig + "/positions", fm_positions, r)
+    if not ok or not s.eq(got, want, sig + "/positions", what):
+        return None
+    s.eq(len(r), len(want), sig + "/len", what)
+    if not s.eq(int(r.parent_length), want_P, sig + "/parent_length", what):
+        return None
+    fm_in_parent(s, r, want_P, sig + "/in-parent")
+    if name == "nucleic_reversed":
+        s.check(not any(sp.reverse for sp in r.spans if not sp.lost), sig + "/reverse-discarded", what)
+    if name == "covered":
+        s.eq([(int(a), int(b)) for a, b in r.get_coordinates()], run_set(real), sig + "/coords", what)
+    return r, want, want_P
+
+
+_SMALL = st.integers(0, 60)
+_SLICE_INT = st.integers(-45, 45)
+_RAW_SPEC = st.tuples(st.sampled_from(SPAN_KINDS), _SMALL, _SMALL).map(list)
+_RAW_SPECS = st.lists(_RAW_SPEC, min_size=1, max_size=4)
+
+
+def fmap_op_st():
+    plain = st.sampled_from(
+        [["nucleic_reversed"], ["inverse"], ["covered"], ["without_gaps"], ["gaps"], ["keep"], ["shadow"], ["json"], ["zeroed"], ["covering"]]
+    )
+    return st.one_of(
+        st.tuples(st.just("slice"), _SLICE_INT, _SLICE_INT).map(list),
+        st.tuples(st.just("inner"), _RAW_SPECS).map(list),
+        st.tuples(st.just("inner"), _RAW_SPECS).map(list),
+        st.tuples(st.just("multi"), st.lists(st.tuples(_SLICE_INT, _SLICE_INT).map(list), min_size=1, max_size=3)).map(list),
+        st.tuples(st.just("spans"), st.lists(st.tuples(_SMALL, _SMALL).map(list), min_size=1, max_size=3)).map(list),
+        st.tuples(st.just("add"), _RAW_SPECS).map(list),
+        st.tuples(st.just("int"), _SMALL).map(list),
+        st.sampled_from([["nucleic_reversed"], ["inverse"]]),
+        plain,
+        plain,
+        plain,
+    )
+
+
 @st.composite
 def fmap_cases(draw):
     P = draw(st.integers(1, 40))
     k = draw(st.integers(1, 5))
     kind = draw(st.sampled_from(["disjoint", "disjoint", "overlap", "lost"]))
+    fwd = st.sampled_from(["s", "s", "r"])
     spans = []
     if kind in ("disjoint", "lost"):
         cuts = sorted(draw(st.lists(st.integers(0, P), min_size=2 * k, max_size=2 * k)))
         for j in range(0, 2 * k, 2):
             if cuts[j] < cuts[j + 1]:
-                spans.append(["s", cuts[j], cuts[j + 1]])
+                spans.append([draw(fwd), cuts[j], cuts[j + 1]])
         if kind == "lost":
-            pos = draw(st.integers(0, len(spans)))
-            spans.insert(pos, ["l", draw(st.integers(1, 4))])
+            for _ in range(draw(st.integers(1, 2))):
+                pos = draw(st.integers(0, len(spans)))
+                spans.insert(pos, ["l", draw(st.integers(1, 4))])
     else:
         for _ in range(k):
             a = draw(st.integers(0, P - 1))
             b = draw(st.integers(a + 1, P))
-            spans.append(["s", a, b])
-    if not any(x[0] == "s" for x in spans):
+            spans.append([draw(fwd), a, b])
+    if not any(x[0] != "l" for x in spans):
         spans.append(["s", 0, P])
-    tot = sum((x[2] - x[1]) if x[0] == "s" else x[1] for x in spans)
+    tot = sum((x[2] - x[1]) if x[0] != "l" else x[1] for x in spans)
     a = draw(st.integers(-tot - 2, tot + 2))
     b = draw(st.integers(-tot - 2, tot + 2))
-    return {"P": P, "spans": spans, "kind": kind, "sl": [a, b]}
+    ops = draw(st.lists(fmap_op_st(), min_size=1, max_size=3))
+    return {"P": P, "spans": spans, "kind": kind, "sl": [a, b], "ops": ops, "scale": draw(st.sampled_from([2, 3]))}
 
 
 def exec_fmap(case) -> Soft:
-    from cogent3.core.location import FeatureMap, LostSpan, Span
+    from cogent3.core.location import FeatureMap
 
     s = Soft("C08/fmap/")
     P = case["P"]
-    spans = []
-    idx = []  # parent index per map position, None when lost
-    for x in case["spans"]:
-        if x[0] == "s":
-            spans.append(Span(x[1], x[2]))
-            idx.extend(range(x[1], x[2]))
-        else:
-            spans.append(LostSpan(x[1]))
-            idx.extend([None] * x[1])
+    specs = case["spans"]
+    idx = spec_positions(specs)  # parent index per map position, None when lost
     real = [i for i in idx if i is not None]
     # history made explicit: an IndelMap with gap runs of the same lengths had
     # its spans read earlier in this process (lost spans are cached by length)
-    for x in case["spans"]:
+    for x in specs:
         if x[0] == "l":
             list(make_map("-" * x[1] + "x").spans)
-    ok, m = s.call("construct", lambda: FeatureMap(spans=spans, parent_length=P))
+    ok, m = s.call("construct", lambda: FeatureMap(spans=build_spans(specs), parent_length=P))
     if not ok:
         return s
     kind = case["kind"]
     s.cls(kind)
-    s.nontrivial = len(case["spans"]) >= 2
-
-    def positions(fm):
-        out = []
-        for sp in fm.spans:
-            if sp.lost:
-                out.extend([None] * len(sp))
-            elif sp.reverse:
-                out.extend(range(sp.end - 1, sp.start - 1, -1))
-            else:
-                out.extend(range(sp.start, sp.end))
-        return out
-
-    def in_parent(fm, plen, sig):
-        for sp in fm.spans:
-            if not sp.lost:
-                s.check(0 <= sp.start <= sp.end <= plen, sig, f"span {sp!r} outside parent of length {plen}")
+    if any(x[0] == "r" for x in specs):
+        s.cls("reversed-span")
+    s.nontrivial = len(specs) >= 2
+    positions, in_parent = fm_positions, lambda fm, plen, sig: fm_in_parent(s, fm, plen, sig)
 
     s.eq(len(m), len(idx), "len", str(case))
     s.eq(positions(m), idx, "positions", str(case))
-
-    def run_set(ixs):
-        ixs = sorted(set(ixs))
-        out = []
-        for i in ixs:
-            if out and out[-1][1] == i:
-                out[-1][1] = i + 1
-            else:
-                out.append([i, i + 1])
-        return [tuple(x) for x in out]
+    # get_coordinates: one (start, end) pair per span that is not lost; the docstring lets a reversed map answer
+    # (end, start), so the pair is compared as a set of two boundaries
+    ok, co = s.call("get_coordinates", lambda: [tuple(sorted((int(a), int(b)))) for a, b in m.get_coordinates()])
+    if ok:
+        s.eq(co, [(x[1], x[2]) for x in specs if x[0] != "l"], "get_coordinates", str(case))
+    ok, ng = s.call("nongap", lambda: [v for sp in m.nongap() for v in range(int(sp.start), int(sp.end))])
+    if ok:
+        s.eq(ng, [i for i, v in enumerate(idx) if v is not None], "nongap/positions", str(case))
 
     ok, c = s.call("covered", m.covered)
     if ok:
@@ -563,14 +836,12 @@ def exec_fmap(case) -> Soft:
         s.eq([(int(a), int(b)) for a, b in cs.get_coordinates()], [(min(real), max(real) + 1)], "covering_span", str(case))
     ok, nr = s.call("nucleic_reversed", m.nucleic_reversed)
     if ok:
-        want = [None if i is None else P - 1 - i for i in reversed(idx)]
         # spans stay forward after reflection: each span lists its indices ascending
         got_sets = [set(range(sp.start, sp.end)) for sp in nr.spans if not sp.lost]
-        want_sets = [set(P - 1 - i for i in range(x[1], x[2])) for x in reversed(case["spans"]) if x[0] == "s"]
+        want_sets = [set(P - 1 - i for i in range(x[1], x[2])) for x in reversed(specs) if x[0] != "l"]
         s.eq(got_sets, want_sets, "nucleic_reversed/reflection", str(case))
         s.eq(len(nr), len(idx), "nucleic_reversed/len", str(case))
         in_parent(nr, P, "nucleic_reversed/in-parent")
-        del want
     if kind in ("disjoint", "lost"):
         ok, sh = s.call("shadow", m.shadow)
         if ok:
@@ -614,6 +885,311 @@ def exec_fmap(case) -> Soft:
     ok, wg = s.call("without_gaps", m.without_gaps)
     if ok:
         s.eq(positions(wg), real, "without_gaps/positions", str(case))
+    # scaling (protein -> DNA coordinates): every span is scaled, so a position p becomes the block
+    # p*k .. p*k+k-1, listed downwards inside a reversed span; division by 3 undoes multiplication by 3
+    k = case.get("scale")
+    if k:
+        ok, mk = s.call("mul", lambda: m * k)
+        if ok:
+            want = spec_positions([[x[0], x[1] * k, x[2] * k] if x[0] != "l" else ["l", x[1] * k] for x in specs])
+            s.eq(positions(mk), want, "mul/positions", f"{case} * {k}")
+            s.eq(int(mk.parent_length), P * k, "mul/parent_length", f"{case} * {k}")
+            if k == 3:
+                ok, back = s.call("truediv", lambda: mk / 3)
+                if ok:
+                    s.eq(positions(back), idx, "truediv/positions", f"({case} * 3) / 3")
+                    s.eq(int(back.parent_length), P, "truediv/parent_length", f"({case} * 3) / 3")
+    # histories: every result re-enters the next operation and is compared again
+    cur = (m, idx, P)
+    zeroed = False
+    for step, op in enumerate(case.get("ops", [])):
+        nxt = fmap_step(s, cur[0], cur[1], cur[2], op, "chain/", after_zeroed=zeroed)
+        if nxt is None:
+            break
+        if nxt is SKIP:
+            continue
+        cur = nxt
+        zeroed = zeroed or op[0] == "zeroed"
+        if step >= 1:
+            s.cls("chain>=2")
+    return s
+
+
+# ----------------------------------------------------------- sub: history
+# Results re-enter further operations.  The state of the model is the gap
+# layout (string over x / -) while the object is an IndelMap, and the index
+# list once it has become a FeatureMap.  Operation parameters are raw ints
+# reduced by the current length, so every generated history is valid.
+HIST_MAX = 60  # longest layout a history may grow to (residue labels are unique up to 62)
+
+
+def indel_step(s: Soft, m, lay: str, op, sigp: str, after_json: bool = False):
+    """one IndelMap operation on map ``m`` (verified to describe layout ``lay``).  Returns ("indel", m', lay'),
+    ("fmap", fm, idx, P) or None (not applicable / result unusable).  ``after_json``: an earlier step rebuilt the
+    map from its rich dict (circumstance tag for merge_maps, which is sensitive to the dtype of the gap arrays)."""
+    from cogent3.core.location import FeatureMap, IndelMap
+
+    name = op[0]
+    L = len(lay)
+    n = lay.count("x")
+    g = gapped(lay)
+    what = f"{g!r} {op}"
+    if name == "slice":
+        # a <= b; reversed intervals of fresh maps are enumerated by the layout sub-check
+        a = op[1] % (L + 1)
+        b = a + op[2] % (L + 1 - a)
+        call = lambda: m[a:b]
+        want = lay[a:b]
+        what = f"{g!r}[{a}:{b}]"
+    elif name == "int":
+        if not L:
+            return None
+        i = op[1] % L
+        call = lambda: m[i]
+        want = lay[i]
+        what = f"{g!r}[{i}]"
+    elif name == "nucleic_reversed":
+        call = m.nucleic_reversed
+        want = lay[::-1]
+    elif name == "joined":
+        cuts = sorted({u % (L + 1) for u in op[1]})
+        segs = [(cuts[j], cuts[j + 1]) for j in range(0, len(cuts) - 1, 2)]
+        if not segs:
+            return None
+        call = lambda: m.joined_segments(segs)
+        want = "".join(lay[a:b] for a, b in segs)
+        what = f"{g!r} joined {segs}"
+    elif name == "add":
+        if L + len(op[1]) > HIST_MAX:
+            return None
+        other = make_map(gapped(op[1]))
+        call = lambda: m + other
+        want = lay + op[1]
+    elif name == "radd":
+        if L + len(op[1]) > HIST_MAX:
+            return None
+        other = make_map(gapped(op[1]))
+        call = lambda: other + m
+        want = op[1] + lay
+    elif name == "mul":
+        k = op[1]
+        if L * k > HIST_MAX:
+            return None
+        call = lambda: m * k
+        want = "".join(c * k for c in lay)
+    elif name == "merge":
+        # same sequence, other gaps: e[i] columns in front of residue i (and after the last)
+        e = [op[1][i % len(op[1])] % 3 for i in range(n + 1)]
+        other_lay = "".join("-" * e[i] + "x" for i in range(n)) + "-" * e[n]
+        if L + sum(e) > HIST_MAX:
+            return None
+        other = make_map(gapped(other_lay))
+        call = lambda: m.merge_maps(other)
+        mine = [0] * (n + 1)
+        k = 0
+        for c in lay:
+            if c == "-":
+                mine[k] += 1
+            else:
+                k += 1
+        want = "".join("-" * (mine[i] + e[i]) + "x" for i in range(n)) + "-" * (mine[n] + e[n])
+        what = f"{g!r} merged with {other_lay!r}"
+    elif name == "minus":
+        # equal-length partner; the columns that are gaps in both are removed
+        if not L:
+            return None
+        choice = [op[1][i % len(op[1])] % 3 for i in range(L)]
+        partner = "".join(("x", "-", lay[i])[choice[i]] for i in range(L))
+        other = make_map(gapped(partner))
+        call = lambda: m.minus_gaps(other)
+        want = "".join(c for i, c in enumerate(lay) if not (c == "-" and partner[i] == "-"))
+        what = f"{g!r} minus {partner!r}"
+    elif name == "termini":
+        call = m.with_termini_unknown
+        want = lay
+    elif name == "json":
+        call = lambda: IndelMap.from_rich_dict(json.loads(m.to_json()))
+        want = lay
+    elif name == "from_spans":
+        call = lambda: IndelMap.from_spans(tuple(m.spans), parent_length=n)
+        want = lay
+    elif name == "to_fmap":
+        ok, fm = s.call(sigp + "to_feature_map", m.to_feature_map)
+        if not ok:
+            return None
+        idx, k = [], 0
+        for c in lay:
+            if c == "-":
+                idx.append(None)
+            else:
+                idx.append(k)
+                k += 1
+        ok, got = s.call(sigp + "to_feature_map/positions", fm_positions, fm)
+        if not ok or not s.eq(got, idx, sigp + "to_feature_map/positions", what):
+            return None
+        s.eq(int(fm.parent_length), n, sigp + "to_feature_map/parent_length", what)
+        return "fmap", fm, idx, n
+    elif name == "seq_fmap":
+        # an alignment feature (sorted, disjoint, non-empty spans) placed on the sequence
+        cuts = sorted({u % (L + 1) for u in op[1]})
+        feat = [(cuts[j], cuts[j + 1]) for j in range(0, len(cuts) - 1, 2)]
+        if not feat:
+            return None
+        ok, afm = s.call(sigp + "make_seq_feature_map/build", lambda: FeatureMap.from_locations(locations=feat, parent_length=L))
+        if not ok:
+            return None
+        ok, fm = s.call(sigp + "make_seq_feature_map", m.make_seq_feature_map, afm)
+        if not ok:
+            return None
+        idx = [v for a, b in feat for v in range(n_left(lay, a), n_left(lay, b))]
+        ok, got = s.call(sigp + "make_seq_feature_map/positions", fm_positions, fm)
+        if not ok or not s.eq(got, idx, sigp + "make_seq_feature_map/positions", f"{g!r} {feat}"):
+            return None
+        fm_in_parent(s, fm, n, sigp + "make_seq_feature_map/in-parent")
+        return "fmap", fm, idx, n
+    else:
+        raise ValueError(f"unknown indel map operation {op!r}")
+    sig = sigp + name
+    if after_json and name == "merge":
+        sig = sigp + "after-json/merge"
+    ok, r = s.call(sig, call)
+    if not ok:
+        return None
+    wg = gapped(want)
+    ok, txt = s.call(sig + "/render", render, r, wg.replace("-", ""))
+    if not ok or not s.eq(txt, wg, sig + "/render", what):
+        return None
+    if not (s.eq(len(r), len(want), sig + "/len", what) and s.eq(int(r.parent_length), want.count("x"), sig + "/parent_length", what)):
+        return None
+    return "indel", r, want
+
+
+_HSMALL = st.integers(0, 40)
+_HLIST = st.lists(_HSMALL, min_size=2, max_size=8)
+
+
+def indel_op_st():
+    """operations that keep the object an IndelMap"""
+    sl = st.tuples(st.just("slice"), _HSMALL, _HSMALL).map(list)
+    return st.one_of(
+        sl,
+        sl,
+        sl,
+        st.tuples(st.just("int"), _HSMALL).map(list),
+        st.tuples(st.just("joined"), _HLIST).map(list),
+        st.tuples(st.just("joined"), _HLIST).map(list),
+        st.tuples(st.sampled_from(["add", "radd"]), layout_st(max_size=10)).map(list),
+        st.tuples(st.just("mul"), st.sampled_from([2, 3])).map(list),
+        st.tuples(st.just("merge"), _HLIST).map(list),
+        st.tuples(st.just("minus"), _HLIST).map(list),
+        st.just(["nucleic_reversed"]),
+        st.sampled_from([["nucleic_reversed"], ["termini"], ["json"], ["from_spans"]]),
+    )
+
+
+def _indel_op_named(name):
+    if name == "slice":
+        return st.tuples(st.just("slice"), _HSMALL, _HSMALL).map(list)
+    if name == "joined":
+        return st.tuples(st.just("joined"), _HLIST).map(list)
+    return st.just([name])
+
+
+# histories named by the property's quantifier; the other histories are free sequences
+TEMPLATES = [
+    (["slice", "slice"], []),
+    (["slice", "nucleic_reversed", "slice"], []),
+    (["joined", "slice"], []),
+    (["nucleic_reversed", "joined"], []),
+    (["to_fmap"], ["inverse", "slice"]),
+    (["slice", "to_fmap"], ["inverse", "inner"]),
+    (["to_fmap"], ["nucleic_reversed", "inverse"]),
+    (["joined", "to_fmap"], ["inverse", "inverse"]),
+]
+
+
+def _fmap_op_named(name):
+    if name == "slice":
+        return st.tuples(st.just("slice"), _SLICE_INT, _SLICE_INT).map(list)
+    if name == "inner":
+        return st.tuples(st.just("inner"), _RAW_SPECS).map(list)
+    return st.just([name])
+
+
+@st.composite
+def history_cases(draw):
+    # a layout with at least one run, so that most histories start from a map with content
+    nruns = draw(st.integers(1, 6))
+    gap_first = draw(st.booleans())
+    g = "".join(("-" if (i % 2 == 0) == gap_first else "x") * draw(st.integers(1, 4)) for i in range(nruns))[:16]
+    route = draw(st.sampled_from(["direct", "parse"]))
+    plan = draw(st.sampled_from(["template", "indel", "indel", "to_fmap", "seq_fmap"]))
+    if plan == "template":
+        names, fnames = draw(st.sampled_from(TEMPLATES))
+        ops = [draw(_indel_op_named(x)) for x in names]
+        fops = [draw(_fmap_op_named(x)) for x in fnames]
+        if fops:
+            fops += draw(st.lists(fmap_op_st(), max_size=1))
+        return {"g": g, "route": route, "ops": ops, "fops": fops}
+    ops = draw(st.lists(indel_op_st(), min_size=2 if plan == "indel" else 0, max_size=3 if plan == "indel" else 2))
+    fops = []
+    if plan != "indel":
+        # the tail of the history is spent in feature-map coordinates
+        ops.append(["to_fmap"] if plan == "to_fmap" else ["seq_fmap", draw(_HLIST)])
+        fops = draw(st.lists(fmap_op_st(), min_size=1, max_size=3))
+    return {"g": g, "route": route, "ops": ops, "fops": fops}
+
+
+def exec_history(case) -> Soft:
+    s = Soft("C08/hist/")
+    lay = case["g"]
+    route = case.get("route", "direct")
+    ok, m = s.call("construct/" + route, make_map_via, gapped(lay), route)
+    if not ok:
+        return s
+    s.cls("route:" + route)
+    evals = 0
+    steps = 0
+    state = ("indel", m, lay)
+    done = []
+    for op in case["ops"]:
+        if state[0] != "indel":
+            break
+        nxt = indel_step(s, state[1], state[2], op, "", after_json="json" in done)
+        if nxt is None:
+            s.cls("skipped:" + op[0])
+            continue
+        steps += 1
+        evals += 1
+        done.append(op[0])
+        state = nxt
+        if nxt[0] == "indel":
+            # the result must answer every accessor like a map built from the transformed string
+            evals += compare_accessors(s, nxt[1], gapped(nxt[2]), f"after:{op[0]}/")
+    if state[0] == "fmap":
+        zeroed = False
+        cur = state[1:]
+        for op in case.get("fops", []):
+            nxt = fmap_step(s, cur[0], cur[1], cur[2], op, "fmap/", after_zeroed=zeroed, from_indel="to_fmap" in done)
+            if nxt is None:
+                break
+            if nxt is SKIP:
+                s.cls("skipped:" + op[0])
+                continue
+            steps += 1
+            evals += 1
+            done.append(op[0])
+            zeroed = zeroed or op[0] == "zeroed"
+            cur = nxt
+    s.cls(f"steps={min(steps, 5)}")
+    for name in done:
+        s.cls("op:" + name)
+    path = ">".join(done)
+    for pattern in ("slice>slice", "slice>nucleic_reversed>slice", "joined>slice", "to_fmap>inverse>slice", "to_fmap>inverse>inner", "seq_fmap>inverse"):
+        if pattern in path:
+            s.cls("path:" + pattern)
+    s.evals = max(evals, 1)
+    s.nontrivial = steps >= 2 and len(runs(gapped(lay), True)) >= 1
     return s
 
 
@@ -622,13 +1198,14 @@ SUBS = [
     Sub("layout_long", exec_layout, strategy=long_layouts(), quick=160, thorough=4000, shards_quick=16),
     Sub("binary", exec_binary, strategy=binary_cases(), quick=3000, thorough=480000, shards_quick=16),
     Sub("featuremap", exec_fmap, strategy=fmap_cases(), quick=3000, thorough=480000, shards_quick=16),
+    Sub("history", exec_history, strategy=history_cases(), quick=3000, thorough=480000, shards_quick=16),
 ]
 
 KNOWN_PREDICATES = {}
 
 # thorough tier: coverage-guided campaigns (atheris/libFuzzer mutating the bytes Hypothesis draws from)
 FUZZ = {
-    "subs": ['layout_long', 'binary', 'featuremap'],
+    "subs": ['layout_long', 'binary', 'featuremap', 'history'],
     "targets": ['cogent3.core.location'],
     "execs_thorough": 40_000, "jobs_thorough": 4, "execs_quick": 1000, "jobs_quick": 2,
 }
